@@ -3,7 +3,7 @@ CONSTANTS Clients = {"c1","c2"}
   RawKeys <- KeysEv
   CacheKeys = {}
   Atoms = {"x"}
-  SetLists <- Lists0
+  SetLists <- ListsXY
   Indexes <- IdxAll
   MaxLen = 3
   Records = {}
